@@ -131,6 +131,7 @@ def run(chk):
     hunt4_rules(chk, repo)
     regex_cost_rule(chk, repo, folder)
     hunt5_rules(chk, repo)
+    round7_rules(chk, repo)
 
 
 _RE_FUNCS = ("re.compile", "re.match", "re.fullmatch", "re.search", "re.sub", "re.subn", "re.split", "re.findall", "re.finditer")
@@ -188,6 +189,45 @@ def regex_cost_rule(chk, repo, folder, rule="C10.regex.linear"):
     chk.note = getattr(chk, "note", "")
     if unfolded:
         chk.ok(rule, repo.module(MOD).tree, f"{unfolded} pattern expression(s) are built at run time (re.escape of a boundary, a template) and are not examined")
+
+
+def round7_rules(chk, repo):
+    """Rule written after seeding round 7 (seed C10-7): a number parsed from hex text of the peer is not written out in decimal.
+    int(text, 16) has no digit limit, but the conversion of the result to a decimal string has (4300 digits since CPython 3.11): a
+    chunk-size line of 3572 hex digits - inside max_line_size - makes `f"... {size} ..."` raise ValueError while the *error message* is built,
+    and that ValueError is not an HTTP protocol error."""
+    n = 0
+    for rel in (MOD, "aiohttp/web_protocol.py", "aiohttp/client_proto.py"):
+        mod = repo.module(rel)
+        for fn in mod.functions.values():
+            big = {a.targets[0].id: a for a in ast.walk(fn.node) if isinstance(a, ast.Assign) and isinstance(a.targets[0], ast.Name) and isinstance(a.value, ast.Call)
+                   and isinstance(a.value.func, ast.Name) and a.value.func.id == "int" and len(a.value.args) > 1 and getattr(a, "fn", None) is fn}
+            if not big:
+                continue
+            for x in ast.walk(fn.node):
+                nm = None
+                if isinstance(x, ast.FormattedValue) and isinstance(x.value, ast.Name) and x.value.id in big:
+                    spec = norm.raw(x.format_spec) if x.format_spec is not None else ""
+                    if any(k in spec for k in ("x", "X", "o", "b")) and "d" not in spec:
+                        continue
+                    nm = x.value.id
+                elif isinstance(x, ast.Call) and norm.raw(x.func) in ("str", "repr", "format") and x.args and isinstance(x.args[0], ast.Name) and x.args[0].id in big:
+                    nm = x.args[0].id
+                elif isinstance(x, ast.BinOp) and isinstance(x.op, ast.Mod) and isinstance(x.left, ast.Constant) and isinstance(x.left.value, (str, bytes)) and any(isinstance(y, ast.Name) and y.id in big for y in ast.walk(x.right)):
+                    nm = next(y.id for y in ast.walk(x.right) if isinstance(y, ast.Name) and y.id in big)
+                if nm is None:
+                    continue
+                n += 1
+                st = K.stmt_of(x)
+                bounded = any(l.pos and any(l.text.startswith(f"{nm} {op} ") for op in ("<", "<=")) or (not l.pos and any(l.text.startswith(f"{nm} {op} ") for op in (">", ">="))) for l in PC.units(PC.pc(st, raw=True)))
+                handled = any(any(t_ in ("ValueError", "Exception") for t_ in PC.handler_types(h)) for _t, h in K.enclosing_try_handlers(st))
+                if bounded or handled:
+                    chk.ok("C10.total.decimal", x, f"{fn.qualname}: `{nm}` is written out only below a bound")
+                else:
+                    chk.violation("C10.total.decimal", st, K.short(st, 80), f"format {nm} in hex ({{{nm}:x}}) or leave it out of the message",
+                                  f"{fn.qualname}: `{nm}` comes from int(<text of the peer>, 16) - any number of digits - and is formatted in decimal: for a chunk-size line of 3572 or more hex digits (well under max_line_size) the conversion raises ValueError before the protocol error is even built; HttpParser.feed_data() takes it for a non-protocol error, the body is marked complete and the server answers 500 instead of 400")
+    if n == 0:
+        chk.ok("C10.total.decimal", repo.module(MOD).tree, "no number parsed from hex text is formatted in decimal")
 
 
 def hunt5_rules(chk, repo):
